@@ -88,14 +88,15 @@ SPEC = {
           ('Lemmas/RoundTrip.v', ['data_positions_count', 'decode_of_encode_core', 'encode_decodes', 'encode_decodes_eci', 'decode_of_encode_core_sa'])]),
  'C08': dict(title='Structured Append sequences reassemble to the original message',
    imports='Ref.IsoData Ref.Spec Model.Bits Model.Segment Model.Version Model.Stream Model.Matrix Model.Encode Model.Sequence Lemmas.PackLemmas Lemmas.VersionLemmas Lemmas.SeqLemmas',
-   intro='''Model/Sequence.v encode_sequence.  The statement "every chunk fits its symbol" is FALSE of the unchanged code (known finding D14
+   intro='''Model/Sequence.v encode_sequence.  The statement "every chunk fits its symbol" is FALSE on the version= path (known finding D14
    `kf_sa_chunk_overflow`): C08_refuted_fit exhibits 71 digits at version 1-L (a chunk of 154 bits in a 152-bit symbol); seq_fits_partial /
-   seq_fits_stream prove the fit for every input on which no chunk overflows.  Chunking, headers, parity, counts and versions hold for ALL inputs.
+   seq_fits_stream prove the fit for every input on which no chunk overflows.  On the symbol_count= path every chunk fits, without side condition
+   (seq_fits_symbol_count: the version is the highest one any chunk needs; repo fix fbe1a02).  Chunking, headers, parity, counts and versions hold for ALL inputs.
    That each symbol decodes to its chunk is C01 (Lemmas/RoundTrip.v) applied to the per-symbol encode_core call exposed by encode_chunks_headers.''',
    items=[('Lemmas/SeqLemmas.v', ['chunks_partition', 'chunks_count', 'chunks_sizes', 'chunks_bytes_concat', 'xor_all_spec', 'xor_bytes_concat',
                                   'encode_sequence_multi_shape', 'encode_chunks_headers', 'encode_chunks_versions', 'C08_model_multi',
                                   'seq_count_bounds', 'seq_never_micro', 'seq_symbol_count', 'seq_fixed_version', 'C08_refuted_fit',
-                                  'seq_fits_partial', 'seq_fits_stream'])]),
+                                  'seq_fits_partial', 'seq_fits_stream', 'seq_fits_symbol_count'])]),
  'C14': dict(title='arguments are honoured or refused with ValueError; nothing else escapes',
    imports='Base.PyCase Ref.IsoData Ref.Spec Model.Bits Model.Segment Model.Version Model.Stream Model.Matrix Model.Encode Model.Sequence Model.Color Model.Args Lemmas.VersionLemmas Lemmas.ExnLemmas',
    intro='''Model/Args.v encode_args = encoder.encode with RAW arguments (None / bool / int / str; py_upper / py_lower = Base/PyCase.v: Python's
